@@ -230,8 +230,21 @@ def c12(run):
         "byte strings that the deserializer accepts are valid inputs, not malformed ones, and are not sent",
         "per-call bounds: 1 s wall clock and 2 MiB + 64 bytes per input byte of peak allocation (serde pre-allocates at most 1 MiB for a sequence whose declared length is huge)"]
     q = run.quick
-    random_round(run, "bad", run.seed, 1500 if q else 15000, ["bridge_bin", "bridge_json"], "mixed", 2, 30,
-                 selftest=True, bad=0.35)
+    try:
+        random_round(run, "bad", run.seed, 1500 if q else 15000, ["bridge_bin", "bridge_json"], "mixed", 2, 30,
+                     selftest=True, bad=0.35)
+    except lib.HarnessCrash as e:
+        # the process itself died (abort on allocation failure, stack overflow): that is the violation
+        if e.journal and e.journal.get("about_to", {}).get("a", "").startswith("bad_"):
+            run.violations += 1
+            p = os.path.join(lib.WORK, "replay", f"{run.prop}-{run.violations}.json")
+            with open(p, "w") as f:
+                json.dump({"kind": "crash", "property": run.prop, "what": str(e)[:500], "case": e.journal["case"],
+                           "fatal_step": e.journal["about_to"]}, f, indent=1)
+            print(f"VIOLATION property={run.prop} replay={p}")
+            print("  the process died while handling malformed input: " + json.dumps(e.journal["about_to"])[:300])
+            return
+        raise
     # count the malformed inputs actually offered
     nbad = kinds = 0
     seen = set()
